@@ -71,7 +71,7 @@ class Contract:
     """
 
     def __init__(self, fn, name, pre, post, assigns=(), ghosts=(), mode="S", replaces=(), loops=None, unwind=None,
-                 kind="unbounded", extra_flags=(), objbits=None, note="", prop=None, props=None, timeout=None, backends=None):
+                 kind="unbounded", extra_flags=(), objbits=None, note="", prop=None, props=None, timeout=None, backends=None, libc=()):
         self.fn = fn
         self.name = name
         self.pre = list(pre)
@@ -89,6 +89,7 @@ class Contract:
         self.props = set(props) if props else ({prop} if prop else set())
         self.timeout = timeout
         self.backends = backends  # preferred order of back-end names (products: put kissat/z3 first)
+        self.libc = list(libc)    # C library functions replaced by frame-only contracts (assumed dependency contracts)
 
     @property
     def unit(self):
@@ -157,7 +158,7 @@ def clauses(c, for_replace=False):
     if c.mode == "R" and not for_replace:
         pass
     elif not for_replace:
-        out.append("__CPROVER_ensures(sbv_canary != 0) /* reach canary: must FAIL */")
+        out.append("__CPROVER_ensures(sbv_canary != 0 || SBV_CANARY_OK) /* reach canary: must FAIL */")
     if c.assigns is not None:
         tg = list(c.assigns)
         if not for_replace:
@@ -222,7 +223,8 @@ def emit_c(c, path, canary=None):
         return ""
 
     body = re.sub(r"/\*@LOOP (\w+) (\d+)@\*/", sub_loop, body)
-    pre = ['#include "%s"' % os.path.join(SPEC_DIR, "spec.h"), "unsigned long sbv_steps;", "int sbv_canary;", "#define SBV_STEP (sbv_steps++)"]
+    pre = ['#include "%s"' % os.path.join(SPEC_DIR, "spec.h"), "unsigned long sbv_steps;", "int sbv_canary;", "#define SBV_STEP (sbv_steps++)",
+           "#ifdef SBV_SMALL_WITNESS /* counterexample search binary: canaries off */", "#define SBV_CANARY_OK 1", "#else", "#define SBV_CANARY_OK 0", "#endif"]
     nbuf = sum(1 for it in c.pre if isinstance(it, BUF))
     for k in range(nbuf):
         pre.append("char sbv_w%d[%d];" % (k, WIT_BYTES))
@@ -243,14 +245,27 @@ def emit_c(c, path, canary=None):
         if c.mode == "N":
             tail.append(sig + ' { __CPROVER_assert(0, "assertion handler invoked although the documented preconditions hold"); __CPROVER_assume(0); }')
         elif c.mode == "R":
-            tail.append(sig + ' { __CPROVER_assert(sbv_canary != 0, "handler reach canary: must FAIL"); __CPROVER_assume(0); }')
+            tail.append(sig + ' { __CPROVER_assert(sbv_canary != 0 || SBV_CANARY_OK, "handler reach canary: must FAIL"); __CPROVER_assume(0); }')
         else:
             tail.append(sig + " { __CPROVER_assume(0); }")
+    for fn in c.libc:
+        if re.search(r"\b%s\(" % fn, body):
+            tail.append(LIBC_CONTRACTS[fn])
+            replaced.append(fn)
     tail.append("_Bool sbv_is_consteval(void) { _Bool b; return b; }")
+    if re.search(r"\bmemchr\(", body):
+        # CBMC 6.11 ships no model of memchr: C stub written from the ISO C text (trusted, listed in the evidence)
+        tail.append("void *memchr(const void *s, int c, size_t n) { const unsigned char *p = (const unsigned char *)s; for(size_t i = 0; i < n; i++) { if(p[i] == (unsigned char)c) return (void *)(p + i); } return (void *)0; }")
     tail.append(harness_main(c))
     with open(path, "w") as f:
         f.write("\n".join(pre) + "\n" + head + "\n" + body + "\n" + "\n".join(tail) + "\n")
     return replaced
+
+
+LIBC_CONTRACTS = {
+    "memmove": "void *memmove(void *dest, const void *src, size_t n)\n__CPROVER_requires(__CPROVER_r_ok(src, n) && __CPROVER_w_ok(dest, n))\n__CPROVER_assigns(__CPROVER_object_upto(dest, n))\n__CPROVER_ensures(__CPROVER_return_value == dest);",
+    "memset": "void *memset(void *s, int c, size_t n)\n__CPROVER_requires(__CPROVER_w_ok(s, n))\n__CPROVER_assigns(__CPROVER_object_upto(s, n))\n__CPROVER_ensures(__CPROVER_return_value == s);",
+}
 
 
 def nd(ct):
@@ -322,7 +337,7 @@ class Result:
 
 
 BACKENDS = [
-    ("minisat", [], 60),
+    ("minisat", [], 150),
     ("kissat", ["--external-sat-solver", "kissat"], 240),
     ("z3", ["--z3"], 240),
     ("cvc5", ["--cvc5"], 240),
@@ -359,6 +374,8 @@ def run_contract(c, tier="quick", keep=False):
         for name, bflags, tmo in order:
             if c.timeout:
                 tmo = c.timeout
+            if os.environ.get("SBV_TMO"):
+                tmo = int(os.environ["SBV_TMO"])
             if tier == "thorough":
                 tmo *= 3
             try:
@@ -367,16 +384,8 @@ def run_contract(c, tier="quick", keep=False):
                 last = str(e)
                 continue
             if pr.returncode in (0, 10):
-                try:
-                    js = json.loads(pr.stdout)
-                except Exception:
-                    last = "unparsable cbmc output"
-                    continue
-                res = None
-                for item in js:
-                    if isinstance(item, dict) and "result" in item:
-                        res = item["result"]
-                if res is None:
+                res = parse_text_results(pr.stdout)
+                if not res or "VERIFICATION" not in pr.stdout:
                     last = "no result in cbmc output"
                     continue
                 r.backend = name
@@ -407,7 +416,7 @@ def run_contract(c, tier="quick", keep=False):
                     except (ToolError, subprocess.TimeoutExpired) as e:
                         sys.stderr.write("small-witness search failed for %s: %s\n" % (c.ident(), str(e)[:500]))
                     if any(p.get("status") == "FAILURE" and "trace" not in p and not _is_canary_post(c, p) and "must FAIL" not in p.get("description", "") for p in r.props):
-                        attach(_cbmc(tmo * 2, flags + bflags, wd, trace=True))
+                        attach(_cbmc(min(tmo, 120), flags + bflags, wd, trace=True))
                 break
             last = "%s: exit %d %s" % (name, pr.returncode, (pr.stdout[-300:] + pr.stderr[-300:]).replace("\n", " "))
         else:
@@ -427,8 +436,21 @@ def run_contract(c, tier="quick", keep=False):
 
 
 def _cbmc(tmo, flags, wd, trace, gb="b.gb"):
-    return subprocess.run(["bash", "-c", "ulimit -v 12000000; exec timeout %d cbmc %s --json-ui %s %s" % (tmo, " ".join(flags), "--trace" if trace else "", os.path.join(wd, gb))],
+    """deciding run: plain text UI (no traces: a trace through a havocked slice of symbolic size can be gigabytes); trace run: JSON"""
+    return subprocess.run(["bash", "-c", "ulimit -v 12000000; exec timeout %d cbmc %s %s %s" % (tmo, " ".join(flags), "--json-ui --trace" if trace else "", os.path.join(wd, gb))],
                           stdout=subprocess.PIPE, stderr=subprocess.PIPE, text=True, errors="replace")
+
+
+_RES_RE = re.compile(r"^\[(?P<name>[^\]]+)\] (?:line \d+ )?(?P<desc>.*): (?P<st>SUCCESS|FAILURE|UNKNOWN|ERROR)$")
+
+
+def parse_text_results(out):
+    res = []
+    for line in out.splitlines():
+        m = _RES_RE.match(line)
+        if m:
+            res.append({"property": m.group("name"), "description": m.group("desc"), "status": m.group("st")})
+    return res
 
 
 def _is_canary_post(c, p):
@@ -711,6 +733,8 @@ def native_replay(c, vals, wd):
         env = dict(os.environ, ASAN_OPTIONS="detect_leaks=0:abort_on_error=0:exitcode=1", UBSAN_OPTIONS="halt_on_error=1:exitcode=1:print_stacktrace=0")
         p = sh([exe], check=False, timeout=120, env=env)
         out = p.stdout[-3000:]
+        if "ERROR: AddressSanitizer" in out and re.search(r"#0 0x[0-9a-f]+ in main [^\n]*replay\.c", out):
+            return "error", "the specification itself reads outside the buffer on this input (contract bug, not a verdict):\n" + out[:1500]
         if "REPLAY-FAIL" in out or "ERROR: AddressSanitizer" in out or "runtime error:" in out:
             return "reproduced", out
         return "not-reproduced", out
